@@ -14,4 +14,4 @@ def concurrent_part(ctx):
 
 
 def run(ctx):
-    return envelope.run(ctx, "C20", ["AsherahVerif.Props.C20"], NONTRIVIAL["C20"], modes=(('boundaries',), ('allboundaries',)), pre_finish=concurrent_part)
+    return envelope.run(ctx, "C20", ["AsherahVerif.Props.C20", "AsherahVerif.Props.C20b"], NONTRIVIAL["C20"], modes=(('boundaries',), ('allboundaries',)), pre_finish=concurrent_part)
